@@ -9,6 +9,7 @@
 import SoyVerif.Lemmas.EscapeQuery
 import SoyVerif.Lemmas.EscapeBreaks
 import SoyVerif.Lemmas.Truncate
+import SoyVerif.Lemmas.JsEscapeB
 
 namespace SoyVerif.Props.C16
 open SoyVerif SoyVerif.Model SoyVerif.Spec SoyVerif.Model.Directives
@@ -125,5 +126,46 @@ example : truncate [183] (truncArgs 0 none) = .ok [] := by decide
 example : truncate [128, 128, 128, 128, 128, 128] (truncArgs 5 none) = .ok [46, 46, 46] := by decide
 example : ValidUtf8 [104, 195, 169] :=
   ValidUtf8.seq [104] _ (by decide) (ValidUtf8.seq [195, 169] _ (by decide) ValidUtf8.nil)
+
+/-- (7) the JavaScript string escaper proposed for soy (`Model/JsEscape2.lean`:
+    text/template.JSEscape with astral runes as surrogate pairs), for EVERY table `isPrint`:
+
+    safety, for every byte string (UTF-8 or not) — the output
+    * has no control byte (so no LF / CR) and none of  < > & = ,
+    * has every ' and " directly behind an escaping backslash, and no dangling backslash,
+    * has no raw U+2028 / U+2029;
+
+    round trip, for every well-formed UTF-8 string — the strict evaluator of JavaScript string
+    literal text (`Spec.jsUnescape`: four-digit \u escapes, surrogate pairs, \\ \' \"; rejects
+    anything unsafe or ill-formed) accepts the output and yields exactly the value. -/
+theorem jsEscapeFixed_roundtrip_safe (isPrint : Nat → Bool) (s : Bytes) :
+    (∀ b ∈ jsEscapeFixedWith isPrint s, jsByteSafe b = true) ∧
+    jsQuotesEscaped (jsEscapeFixedWith isPrint s) = true ∧
+    noLineSep (jsEscapeFixedWith isPrint s) = true ∧
+    (ValidUtf8 s → jsUnescape (jsEscapeFixedWith isPrint s) = some s) := by
+  have h := SoyVerif.Lemmas.JsEscapeB.bytes_safe isPrint s 0
+  refine ⟨h.1, ?_, SoyVerif.Lemmas.JsEscapeB.lineSep_safe isPrint s 0, SoyVerif.Lemmas.JsEscapeB.roundtrip isPrint s⟩
+  have := h.2 []
+  simpa [jsQuotesEscaped, jsEscapeFixedWith, jsQuotesEscapedGo] using this
+
+/-- … in particular with unicode.IsPrint of the toolchain in use -/
+theorem jsEscapeFixed_roundtrip (s : Bytes) (h : ValidUtf8 s) : jsUnescape (jsEscapeFixed s) = some s :=
+  (jsEscapeFixed_roundtrip_safe Model.isPrint s).2.2.2 h
+
+/- U+F0000 (private use, not printable): `\uDB80\uDC00`, which evaluates back to F3 B0 80 80;
+   text/template.JSEscape writes `\uF0000` = U+F000 followed by "0" -/
+example : jsEscapeFixedWith (fun _ => false) [243, 176, 128, 128] =
+    [92, 117, 68, 66, 56, 48, 92, 117, 68, 67, 48, 48] := by decide
+example : jsUnescape [92, 117, 68, 66, 56, 48, 92, 117, 68, 67, 48, 48] = some [243, 176, 128, 128] := by decide
+example : jsUnescape [92, 117, 70, 48, 48, 48, 48] = some [239, 128, 128, 48] := by decide
+/- `</script>'` and U+2028 -/
+example : jsEscapeFixedWith (fun _ => true) [60, 47, 39, 226, 128, 168] =
+    [92, 117, 48, 48, 51, 67, 47, 92, 39, 92, 117, 50, 48, 50, 56] := by decide
+/- the evaluator is strict: raw quote, raw <, lone surrogate, five-digit leftovers are what they are -/
+example : jsUnescape [39] = none := by decide
+example : jsUnescape [60] = none := by decide
+example : jsUnescape [92, 117, 68, 56, 48, 48] = none := by decide
+example : jsUnescape [226, 128, 168] = none := by decide
+example : jsUnescape [195, 169, 92, 92] = some [195, 169, 92] := by decide
 
 end SoyVerif.Props.C16
